@@ -149,6 +149,7 @@ type hostsRun struct {
 	trans    map[string]bool
 	changed  bool
 	viol     bool
+	tx       bool // apply the universal C07 rules to every frame the session emits (purge probes)
 }
 
 func tripleStr(t []model.Triple) string {
@@ -284,7 +285,9 @@ func (hr *hostsRun) history() {
 		}
 		synctest.Wait()
 		got := drain()
-		rec.Take()
+		if fr := rec.Take(); hr.tx {
+			txObserve(c, nic, "purge-probe", fr, func() any { return cs(step) })
+		}
 		// ---- C05: table invariants at this quiescent point
 		for _, b := range mon.CheckTables(s) {
 			c.ViolP("C05", "invariant:"+strings.SplitN(b, ":", 2)[0], b, cs(step))
@@ -606,4 +609,41 @@ func histShape(ops []hop) string {
 	}
 	sort.Strings(ks)
 	return strings.Join(ks, ",")
+}
+
+// runHostsTx replays random host-tracking histories with the C07 frame monitor attached to the recorder:
+// the frames are the session's own purge probes (ARP request, neighbour solicitation, ICMPv6 echo).
+func runHostsTx(c *wk.Ctx) {
+	n := c.N(1_500, 60_000)
+	states, trans := map[string]bool{}, map[string]bool{}
+	for i := int64(0); i < n; i++ {
+		idx := 2_000_000_000 + i
+		if !c.Mine(idx) {
+			continue
+		}
+		r := c.Rand("hoststx", i)
+		cfg := deadlineCfgs[r.Intn(len(deadlineCfgs))]
+		ops := make([]hop, 16)
+		for k := range ops {
+			ops[k] = randHop(r, cfg)
+			if k%3 == 2 { // make sure hosts go silent long enough to be probed
+				ops[k] = hop{K: "adv", D: cfg.probe + time.Minute}
+			}
+		}
+		c.Begin(idx, "hosts-history(tx)", nil)
+		c.Eval()
+		hr := &hostsRun{c: c, idx: idx, ops: ops, cfg: cfg, compare: true, states: states, trans: trans, tx: true}
+		func() {
+			defer func() {
+				if rec := recover(); rec != nil {
+					pi := wk.Capture(rec)
+					if strings.Contains(pi.Value, "HARNESS BUG") {
+						panic(rec)
+					}
+					c.ViolP("C09", "bubble:"+strings.SplitN(pi.Value, ":", 2)[0], pi.Value, map[string]any{"index": idx})
+				}
+			}()
+			synctest.Test(theT, func(t *testing.T) { hr.history() })
+		}()
+	}
 }
